@@ -2,7 +2,8 @@
    verified boolean observer of the property on the implementation's own
    observation (verdict of the real validator on the YAML text, and what happened
    when the accepted configuration was instantiated and run). *)
-From F2G Require Import Drv.Common Model.Util Model.Config Proofs.ConfigGraph Proofs.Config.
+From F2G Require Export Model.Config.
+From F2G Require Import Drv.Common Model.Util Proofs.ConfigGraph Proofs.Config.
 From Coq Require Import Lia.
 
 Record case := mkCase {
